@@ -79,6 +79,7 @@ type Explorer struct {
 	Workers  int
 	SolverKind string
 	SMTLog     string
+	Seed       []Decision // if set, exploration starts from this decision prefix (replay of one path)
 	TimeoutMs  int
 
 	mu      sync.Mutex
@@ -542,6 +543,9 @@ func (x *Explorer) Run() *Result {
 	x.knownDone = map[string]bool{}
 	x.cond = sync.NewCond(&x.mu)
 	x.work = [][]Decision{{}}
+	if x.Seed != nil {
+		x.work = [][]Decision{x.Seed}
+	}
 	if x.Workers <= 0 {
 		x.Workers = 1
 	}
